@@ -20,6 +20,7 @@ import (
 	"net/http"
 	"net/url"
 	"regexp"
+	"sort"
 	"strings"
 	"time"
 
@@ -1881,60 +1882,59 @@ func findChild(parentEl *etree.Element, childNS string, childTag string) (*etree
 }
 
 func elementToBytes(el *etree.Element) ([]byte, error) {
-	// The namespace each element prefix of the document is bound to (the last binding, in
-	// document order, wins). The bindings in scope are carried along the walk: asking every
-	// element for its NamespaceURI() climbs all of its ancestors again, which makes the
-	// time quadratic in the nesting depth an (unauthenticated) sender chooses.
-	namespaces := map[string]string{}
-	root := el
-	for root.Parent() != nil {
-		root = root.Parent()
+	// The copy of el that is serialized below loses the namespace declarations el inherits from
+	// its ancestors, so the bindings in scope at el (the nearest ancestor wins) that el does not
+	// declare itself are declared on the copy. Nothing else is: a declaration elsewhere in the
+	// document - inside el, or in a part of the document that no signature covers - is not in
+	// scope at el and must not rebind a prefix el uses.
+	declared := map[string]bool{}
+	for _, attr := range el.Attr {
+		if prefix, ok := namespaceDeclaration(attr); ok {
+			declared[prefix] = true
+		}
 	}
-	collectElementNamespaces(root, map[string]string{}, namespaces)
+	inherited := map[string]string{}
+	var prefixes []string
+	for ancestor := el.Parent(); ancestor != nil; ancestor = ancestor.Parent() {
+		for _, attr := range ancestor.Attr {
+			prefix, ok := namespaceDeclaration(attr)
+			if !ok || declared[prefix] {
+				continue
+			}
+			if _, seen := inherited[prefix]; !seen {
+				inherited[prefix] = attr.Value
+				prefixes = append(prefixes, prefix)
+			}
+		}
+	}
+	sort.Strings(prefixes)
 
 	doc := etree.NewDocument()
 	doc.WriteSettings = wireWriteSettings
 	doc.SetRoot(el.Copy())
-	for space, uri := range namespaces {
-		doc.Root().CreateAttr("xmlns:"+space, uri)
+	root := doc.Root()
+	for _, prefix := range prefixes {
+		// (appended rather than CreateAttr'd: that looks through all attributes each time)
+		if prefix == "" {
+			root.Attr = append(root.Attr, etree.Attr{Key: "xmlns", Value: inherited[prefix]})
+		} else {
+			root.Attr = append(root.Attr, etree.Attr{Space: "xmlns", Key: prefix, Value: inherited[prefix]})
+		}
 	}
 
 	return doc.WriteToBytes()
 }
 
-// collectElementNamespaces records in namespaces, for el and each element below it, the
-// namespace URI that the element's prefix (or the default namespace, for an element without
-// prefix) is bound to, if any. scope holds the bindings in scope at el's parent.
-func collectElementNamespaces(el *etree.Element, scope map[string]string, namespaces map[string]string) {
-	copied := false
-	for _, attr := range el.Attr {
-		var prefix string
-		switch {
-		case attr.Space == "xmlns":
-			prefix = attr.Key
-		case attr.Space == "" && attr.Key == "xmlns":
-			prefix = ""
-		default:
-			continue
-		}
-		if !copied {
-			outer := scope
-			scope = make(map[string]string, len(outer)+1)
-			for k, v := range outer {
-				scope[k] = v
-			}
-			copied = true
-		}
-		scope[prefix] = attr.Value
+// namespaceDeclaration reports whether attr declares a namespace, and for which prefix ("" for
+// the default namespace).
+func namespaceDeclaration(attr etree.Attr) (prefix string, ok bool) {
+	switch {
+	case attr.Space == "xmlns":
+		return attr.Key, true
+	case attr.Space == "" && attr.Key == "xmlns":
+		return "", true
 	}
-	if el.Tag != "" {
-		if ns := scope[el.Space]; ns != "" {
-			namespaces[el.Space] = ns
-		}
-	}
-	for _, child := range el.ChildElements() {
-		collectElementNamespaces(child, scope, namespaces)
-	}
+	return "", false
 }
 
 // unmarshalElement serializes el into v by serializing el and then parsing it with encoding/xml.
